@@ -188,15 +188,13 @@ def _value_to_cst(value: Any) -> cst.BaseExpression:  # noqa: C901
         )
     if tu.is_enum(type(value)):
         # EnumClass.MEMBER
-        class_name = type(value).__name__
+        enum_class = _enum_class_to_cst(type(value))
         member_name = value.name
         if member_name not in type(value).__members__:
             # A combination of Flag members (name e.g. "R|W") or the zero flag
             # (name None) is no attribute of the class: EnumClass(<value>)
-            return cst.Call(
-                func=cst.Name(class_name), args=[cst.Arg(value=_value_to_cst(value.value))]
-            )
-        return cst.Attribute(value=cst.Name(class_name), attr=cst.Name(member_name))
+            return cst.Call(func=enum_class, args=[cst.Arg(value=_value_to_cst(value.value))])
+        return cst.Attribute(value=enum_class, attr=cst.Name(member_name))
     typ = type(value)
     if tu.is_list(typ):
         return cst.List(elements=[cst.Element(value=_value_to_cst(v)) for v in value])
@@ -225,6 +223,18 @@ def _value_to_cst(value: Any) -> cst.BaseExpression:  # noqa: C901
             ]
         )
     return cst.SimpleString(repr(value))
+
+
+def _enum_class_to_cst(enum_class: type) -> cst.BaseExpression:
+    if "." not in enum_class.__qualname__ and not enum_class.__name__.startswith("_"):
+        # The test module imports the public top-level names of the module under
+        # test, so the class is available under its bare name.
+        return cst.Name(enum_class.__name__)
+    # Nested and underscore-prefixed classes are not: module_alias.Outer.EnumClass
+    class_expr: cst.BaseExpression = cst.Name(get_module_alias(enum_class.__module__))
+    for part in enum_class.__qualname__.split("."):
+        class_expr = cst.Attribute(value=class_expr, attr=cst.Name(part))
+    return class_expr
 
 
 def _type_name_assertion_to_cst(assertion: ass.TypeNameAssertion) -> cst.SimpleStatementLine:
